@@ -64,7 +64,7 @@ func (g *Gen) CheckAtomic(api string, kind string, k int, before map[types.Trans
 			w.C.Oracle(api+"-partial-add-"+kind, "%s returned an error for a %d-transaction set (%s at position %d) but %d of its %d new transactions are in the pool afterwards", api, len(set), kind, k, added, len(fresh))
 		}
 	case "ok":
-		if added != len(fresh) {
+		if added != len(fresh) && !(g.Track != nil && g.Track.PoolFull) { // a full pool evicts at the next query
 			w.C.Oracle(api+"-ok-but-not-all-added", "%s succeeded but only %d of %d new transactions are pooled", api, added, len(fresh))
 		}
 		if len(fresh) == 0 {
@@ -422,7 +422,202 @@ func (g *Gen) Parents() string {
 	}
 }
 
-// step performs one generated action.
+// FirstCall changes the tip (a block confirming a prefix of the pool, a block with other
+// transactions on the tip, or a fork branch that overtakes it) and then makes ONE query the first
+// pool call after the tip change - before anything else has caused a re-validation - choosing its
+// argument from the pool as it was before the tip change.  The answer must agree with the pool
+// listing taken right afterwards (queries change nothing), besides agreeing with the model.
+func (g *Gen) FirstCall() string {
+	w, rng := g.W, g.Rng
+	g.Remember()
+	prev1 := append([]types.Transaction(nil), w.LastV1...)
+	prev2 := make([]types.V2Transaction, len(w.LastV2))
+	for i := range w.LastV2 {
+		prev2[i] = w.LastV2[i].DeepCopy()
+	}
+	oldTip := w.TipID()
+	how := ""
+	switch rng.Intn(4) {
+	case 0, 1: // confirm a proper prefix, so that the rest moves to other positions
+		n1 := rng.Intn(len(prev1) + 1)
+		n2 := 0
+		if n1 == len(prev1) {
+			n2 = rng.Intn(len(prev2) + 1)
+		}
+		if n1+n2 == 0 && len(prev1)+len(prev2) > 0 {
+			if len(prev1) > 0 {
+				n1 = 1
+			} else {
+				n2 = 1
+			}
+		}
+		if _, err := w.GrowFromPool(n1, n2); err != nil {
+			w.C.Oracle("pool-prefix-not-minable", "a block carrying a prefix of the reported pool is invalid on a linear twin: %v", err)
+		}
+		how = "confirm-prefix"
+	case 2:
+		w.GrowRandom(oldTip, rng.Intn(3))
+		how = "other-block"
+	default: // a branch from the parent that overtakes the tip
+		at := w.Tree.Blocks[oldTip].Parent
+		for i := 0; i < 3 && w.TipID() == oldTip; i++ {
+			at = w.GrowRandom(at, rng.Intn(2))
+		}
+		how = "reorg"
+	}
+	if w.TipID() == oldTip || w.Panicked {
+		w.Refresh()
+		return "skip"
+	}
+	// the one query
+	kind := ""
+	var chk func()
+	pick1 := func() (types.TransactionID, bool) {
+		if len(prev1) == 0 {
+			return types.TransactionID{}, false
+		}
+		if rng.Bool() {
+			return prev1[len(prev1)-1].ID(), true
+		}
+		return prev1[rng.Intn(len(prev1))].ID(), true
+	}
+	pick2 := func() (types.TransactionID, bool) {
+		if len(prev2) == 0 {
+			return types.TransactionID{}, false
+		}
+		if rng.Bool() {
+			return prev2[len(prev2)-1].ID(), true
+		}
+		return prev2[rng.Intn(len(prev2))].ID(), true
+	}
+	in1 := func(id types.TransactionID) bool {
+		for _, t := range w.LastV1 {
+			if t.ID() == id {
+				return true
+			}
+		}
+		return false
+	}
+	in2 := func(id types.TransactionID) bool {
+		for _, t := range w.LastV2 {
+			if t.ID() == id {
+				return true
+			}
+		}
+		return false
+	}
+	switch q := rng.Intn(10); {
+	case q < 3: // PoolTransaction
+		id, ok := pick1()
+		k := "v1"
+		if !ok || rng.Chance(1, 4) {
+			if id2, ok2 := pick2(); ok2 && rng.Bool() {
+				id, k = id2, "v2"
+			} else {
+				id, k = w.UnknownTxID(), "unknown"
+			}
+		}
+		found := w.Get1(id, k)
+		kind = "get1-" + k
+		chk = func() {
+			if found != in1(id) {
+				w.C.Oracle("pooltransaction-first-call-after-tip-change-disagrees-with-pool", "PoolTransaction(%s id %d) as the first pool call after a tip change (%s) reported found=%v, the pool listed right afterwards has it: %v", k, w.Tx(id), how, found, in1(id))
+			}
+		}
+	case q < 6: // V2PoolTransaction
+		id, ok := pick2()
+		k := "v2"
+		if !ok || rng.Chance(1, 4) {
+			if id1, ok1 := pick1(); ok1 && rng.Bool() {
+				id, k = id1, "v1"
+			} else {
+				id, k = w.UnknownTxID(), "unknown"
+			}
+		}
+		found := w.Get2(id, k)
+		kind = "get2-" + k
+		chk = func() {
+			if found != in2(id) {
+				w.C.Oracle("v2pooltransaction-first-call-after-tip-change-disagrees-with-pool", "V2PoolTransaction(%s id %d) as the first pool call after a tip change (%s) reported found=%v, the pool listed right afterwards has it: %v", k, w.Tx(id), how, found, in2(id))
+			}
+		}
+	case q < 7: // TransactionsForPartialBlock with every hash of the old pool
+		var want []types.Hash256
+		for _, t := range prev1 {
+			want = append(want, t.MerkleLeafHash())
+		}
+		for _, t := range prev2 {
+			want = append(want, t.MerkleLeafHash())
+		}
+		var p1 []types.Transaction
+		var p2 []types.V2Transaction
+		w.Guard("transactionsforpartialblock-panic", "TransactionsForPartialBlock", func() { p1, p2 = w.Node.CM.TransactionsForPartialBlock(want) })
+		kind = "partial"
+		chk = func() {
+			wantSet := map[types.Hash256]bool{}
+			for _, h := range want {
+				wantSet[h] = true
+			}
+			n1, n2 := 0, 0
+			for _, t := range w.LastV1 {
+				if wantSet[t.MerkleLeafHash()] {
+					n1++
+				}
+			}
+			for _, t := range w.LastV2 {
+				if wantSet[t.MerkleLeafHash()] {
+					n2++
+				}
+			}
+			if n1 != len(p1) || n2 != len(p2) {
+				w.C.Oracle("transactionsforpartialblock-first-call-after-tip-change-disagrees-with-pool", "TransactionsForPartialBlock as the first pool call after a tip change (%s) returned %d+%d transactions, the pool listed right afterwards holds %d+%d of the requested hashes", how, len(p1), len(p2), n1, n2)
+			}
+		}
+	case q < 8: // UnconfirmedParents of a formerly pooled v1 transaction
+		if len(prev1) == 0 {
+			w.Guard("recommendedfee-panic", "RecommendedFee", func() { _ = w.Node.CM.RecommendedFee() })
+			kind = "fee"
+			break
+		}
+		child := prev1[len(prev1)-1]
+		out := w.Parents1(child, "first-call")
+		kind = "par1"
+		chk = func() {
+			for _, p := range out {
+				if !in1(p.ID()) {
+					w.C.Oracle("unconfirmedparents-first-call-after-tip-change-returns-unpooled", "UnconfirmedParents as the first pool call after a tip change (%s) returned transaction %d, which the pool listed right afterwards does not hold", how, w.Tx(p.ID()))
+				}
+			}
+		}
+	default: // V2TransactionSet for a formerly pooled v2 transaction, basis = the old tip
+		if len(prev2) == 0 || !w.V2Allowed() {
+			w.Guard("recommendedfee-panic", "RecommendedFee", func() { _ = w.Node.CM.RecommendedFee() })
+			kind = "fee"
+			break
+		}
+		t := prev2[len(prev2)-1]
+		set, ok := w.TSet(oldTip, t, "first-call")
+		kind = "tset"
+		chk = func() {
+			if !ok {
+				return
+			}
+			for _, p := range set {
+				if p.ID() != t.ID() && !in2(p.ID()) {
+					w.C.Oracle("v2transactionset-first-call-after-tip-change-returns-unpooled", "V2TransactionSet as the first pool call after a tip change (%s) returned transaction %d as a parent, which the pool listed right afterwards does not hold", how, w.Tx(p.ID()))
+				}
+			}
+		}
+	}
+	w.Refresh()
+	if chk != nil && !w.Panicked {
+		chk()
+	}
+	w.Stats["first-call:"+kind+":"+how]++
+	return "first-call-" + kind
+}
+
+// Step performs one generated action.
 func (g *Gen) Step() string {
 	w, rng := g.W, g.Rng
 	tip := w.TipID()
@@ -638,6 +833,9 @@ func (g *Gen) Step() string {
 		g.Aliasing()
 		return "aliasing"
 	case a < 92: // a block on the tip confirming part of the pool
+		if rng.Bool() {
+			return g.FirstCall()
+		}
 		g.Remember()
 		if _, err := w.GrowFromPool(rng.Intn(len(w.LastV1)+1), rng.Intn(len(w.LastV2)+1)); err != nil {
 			w.C.Oracle("pool-prefix-not-minable", "a block carrying a prefix of the reported pool is invalid on a linear twin: %v", err)
@@ -645,6 +843,9 @@ func (g *Gen) Step() string {
 		w.Refresh()
 		return "block-from-pool"
 	default: // a block anywhere (forks, reorgs) with chainx's own transactions
+		if rng.Chance(1, 3) {
+			return g.FirstCall()
+		}
 		g.Remember()
 		var cands []int
 		for id := range w.Tree.Blocks {
